@@ -8,7 +8,7 @@
    What the reader yields for damaged files (missing / wrong size) is the subject
    of C10/C20 and enters here as the item list. *)
 From Coq Require Import Lia.
-From Torf Require Import Base Extracted Corrupt CorruptProofs Pipeline PipelineProofs FlowProofs PipeExplore PipeExploreProofs PipeConfigs VerifyTrueProofs VerifyFalseProofs ThreadProofs DeadlockProofs ConservationProofs ReaderDoneProofs DrainProofs CompleteProofs ReportProofs.
+From Torf Require Import Base Extracted Corrupt CorruptProofs Pipeline PipelineProofs FlowProofs PipeExplore PipeExploreProofs PipeConfigs VerifyTrueProofs VerifyFalseProofs ThreadProofs DeadlockProofs ConservationProofs ReaderDoneProofs DrainProofs CompleteProofs ReportProofs VerdictIffIntact.
 Open Scope Z_scope.
 
 (* a changed byte at stream position p inside file k: the content error for piece p / L names file k *)
@@ -69,6 +69,18 @@ Theorem C02_false_on_intact_means_stopped : forall c s expd,
   yielded (cf_items c) = map RPiece expd -> s_result s = Some ResFalse -> s_stop s = true.
 Proof. exact verify_false_on_intact_means_stopped. Qed.
 Print Assumptions C02_false_on_intact_means_stopped.
+
+(* UNBOUNDED, the capstone: "content verification is exact".  With a passive callback, a verification run that returns a
+   verdict returns True IF AND ONLY IF the content is intact -- every item the reader yields is a readable piece whose
+   hash is the recorded one -- under every schedule, with any number of hashers, reporting interval and clock.  (So
+   the outcome of verify() is a function of the content, not of the schedule.) *)
+Theorem C02_verdict_iff_intact : forall c s expd r,
+  (1 <= cf_hashers c)%nat -> reach c s -> cf_verify c = Some expd -> cf_plan c = CbQuiet ->
+  Pipeline.zlen (yielded (cf_items c)) = Pipeline.zlen expd ->
+  s_result s = Some r -> verdict r ->
+  (r = ResTrue <-> yielded (cf_items c) = map RPiece expd).
+Proof. exact verify_quiet_verdict_iff_intact. Qed.
+Print Assumptions C02_verdict_iff_intact.
 
 (* UNBOUNDED, exactness of the reports: in a verification with a passive callback (one that returns None), under every
    schedule, hasher count, reporting interval and clock,
